@@ -19,7 +19,8 @@ Definition zb (b : bool) : Z := if b then 1 else 0.
 Definition zn (n : nat) : Z := Z.of_nat n.
 Definition enc_phase (p : phase) : Z :=
   match p with PAccepted => 0 | PRejected => 1 | PIdle => 2 | PReadDone => 3 | PHandling => 4 | PInHandler => 5
-  | PReplied => 6 | PLeaving => 7 | PExiting => 8 | PExited => 9 | PUntracked => 10 | PDone => 11 end.
+  | PReplied => 6 | PLeaving => 7 | PExiting => 8 | PExited => 9 | PUntracked => 10 | PDone => 11
+  | PDropping => 12 | PDropped => 13 end.
 Definition enc_cst (c : cstate) : Z := match c with CIdle => 0 | CHandling => 1 | CClosed => 2 end.
 Definition enc_via (v : via) : Z := match v with ViaNone => 0 | ViaCas => 1 | ViaLoadClosed => 2 | ViaLoadIdle => 3 end.
 Definition enc_err (e : err) : Z := match e with ENil => 0 | EClosed => 1 | EOther => 2 | ECtx => 3 | EPanic => 4 end.
@@ -39,6 +40,7 @@ Definition enc_spc (p : spc) : list Z :=
   match p with
   | SStart => [0; 0] | SCalled => [1; 0] | SLoop => [2; 0] | SAccepted c => [3; zn c] | SRejected c => [4; zn c]
   | SPassed c => [5; zn c] | STrack c => [6; zn c] | SReturned e => [7; enc_err e]
+  | SDrop c r => [8; zn c; zb r] | SDropCb c r => [9; zn c; zb r] | SLeaving r => [10; zb r]
   end.
 Definition enc_sdpc (p : sdpc) : list Z :=
   match p with
@@ -73,7 +75,7 @@ Definition obs_eqb (a b : obs) : bool := zlist_eqb (enc_obs a) (enc_obs b).
 (* ---------- hidden steps ---------- *)
 Definition hidden_cands (k : cfg) (s : state) : list label :=
   [LServeCb; LPublish; LSdBegin; LSdPassEnd; LSdRetry; LAfterClose]
-  ++ flat_map (fun c => [LCtxPass c; LTrack c; LConnCtxExit c; LHandleStart c; LProtoReply c; LHandleEnd c; LErrCb c;
+  ++ flat_map (fun c => [LCtxPass c; LCtxDone c; LTrack c; LDropCb c; LConnCtxExit c; LHandleStart c; LProtoReply c; LHandleEnd c; LErrCb c;
                          LConnLeave c; LUntrack c; LCloseCb c; LSdCas c; LSdLoad c])
               (seq 0 (length (conns s))).
 
@@ -102,14 +104,14 @@ Definition obs_cands (n : nat) (o : obs) : list label :=
   | OServeCb => [LServeCb]
   | OAccept c => [LAccept c]
   | OAcceptCb c m ok => [LAcceptCb c m ok]
-  | OConnClose c => [LRejectClose c; LConnExit c; LSdClose c]
+  | OConnClose c => [LRejectClose c; LConnExit c; LSdClose c; LDropClose c]
   | OServeReturn e => [LServeReturn e]
   | ORead c r => [LConnRead c r]
   | OHandlerStart c => [LHandlerStart c]
   | OHandlerEnd c ok => [LHandlerEnd c ok]
   | OWrite c ok => [LReplyWrite c ok]
   | OErrCb => map LErrCb (seq 0 n)
-  | OCloseCb c _ => [LCloseCb c]
+  | OCloseCb c _ => [LCloseCb c; LDropCb c]
   | OSdCall => [LSdCall]
   | OSdReturn _ => [LSdReturn; LSdTimeout; LSdBegin]
   | OCancel => [LCancel]
@@ -147,7 +149,7 @@ Definition parse_event (v : val) : option event :=
 
 (* ---------- quiescent summary ---------- *)
 Definition conn_class (x : conn) : Z :=
-  match ph x with PRejected => 1 | PDone => 2 | PAccepted => 3 | _ => 0 end.
+  match ph x with PRejected => 1 | PDone | PDropped => 2 | PAccepted => 3 | _ => 0 end.
 Definition conn_summary (x : conn) : val :=
   VL [VI (match acc_arg x with Some n => n | None => -1 end); VI (conn_class x); VI (zn (close_cb x));
       VI (zn (replied x)); VI (zb (negb (sock x)))].
@@ -162,7 +164,7 @@ Definition summary (s : state) : val :=
 Definition autonomous_cands (s : state) : list label :=
   [LServeCb; LServeReturn EClosed]
   ++ flat_map (fun c =>
-       [LAcceptCb c (count s + 1) true; LRejectClose c; LConnExit c; LErrCb c; LCloseCb c;
+       [LAcceptCb c (count s + 1) true; LRejectClose c; LDropClose c; LDropCb c; LConnExit c; LErrCb c; LCloseCb c;
         LHandlerEnd c true; LReplyWrite c true]
        ++ match LifecycleModel.get s c with
           | Some x => if sock x then [] else [LConnRead c RErr; LReplyWrite c false]
@@ -190,9 +192,18 @@ Fixpoint parse_events (l : list val) : option (list event) :=
    already seen kept so that nothing is explored twice and hidden cycles (Shutdown's retry loop)
    terminate.  After the last event the run must be extendable by hidden steps to a final state; its
    projection is the summary.  A log that no run produces exhausts the search: [None]. *)
-Definition seen := list (nat * list Z).
-Fixpoint mem_seen (n : nat) (e : list Z) (V : seen) : bool :=
-  match V with [] => false | (m, e') :: t => (Nat.eqb n m && zlist_eqb e e') || mem_seen n e t end.
+(* visited states, one bucket per position in the log (indexed by the number of events left) *)
+Definition seen := list (list (list Z)).
+Fixpoint mem_bucket (e : list Z) (B : list (list Z)) : bool :=
+  match B with [] => false | e' :: t => zlist_eqb e e' || mem_bucket e t end.
+Definition mem_seen (n : nat) (e : list Z) (V : seen) : bool := mem_bucket e (nth n V []).
+Fixpoint add_seen (n : nat) (e : list Z) (V : seen) : seen :=
+  match n, V with
+  | O, B :: t => (e :: B) :: t
+  | O, [] => [[e]]
+  | S m, B :: t => B :: add_seen m e t
+  | S m, [] => [] :: add_seen m e []
+  end.
 
 Definition ev_gor (ev : event) : option gor :=
   match ev with
@@ -223,7 +234,7 @@ Definition hidden_succs_for (k : cfg) (s : state) (g : option gor) : list state 
 (* ways of consuming event ev in state s *)
 Definition consume (k : cfg) (ev : event) (s : state) : list state :=
   match ev with
-  | EObs (OSdReturn EPanic) => succs_by k s [LSdBegin] (Some (OSdReturn EPanic))
+  | EObs (OSdReturn EPanic) => []          (* Shutdown does not panic *)
   | EObs (OSdReturn e) =>
       if negb (sd_req s) && match sd s with SdReturned e' => enc_err e =? enc_err e' | _ => false end then [s] else []
   | EObs o => succs_by k s (obs_cands (length (conns s)) o) (Some o)
@@ -246,7 +257,7 @@ Fixpoint dfs (depth : nat) (k : cfg) (evs : list event) (s : state) (st : sstate
           let e := enc_state s in
           if mem_seen n e V then (None, st)
           else
-            let st1 : sstate := ((n, e) :: V, b) in
+            let st1 : sstate := (add_seen n e V, b) in
             let try_all :=
               fix try_all (opts : list (list event * state)) (st : sstate) : option state * sstate :=
                 match opts with
@@ -275,7 +286,7 @@ Definition run_lifecycle (a : list val) : val :=
       match parse_events evs with
       | None => v_bad
       | Some l =>
-          match fst (dfs (40 * 100)%nat k l init ([], (600 * 100)%nat)) with
+          match fst (dfs (40 * 100)%nat k l init ([], (200 * 100)%nat)) with
           | Some s => v_ok [summary s]
           | None => v_bad                      (* no run of the LTS produces this log *)
           end
@@ -289,11 +300,9 @@ Definition run_lifecycle (a : list val) : val :=
                                           a connect attempted after a successful Shutdown was refused (0/1/2 = not tried);
                                           a panic escaped into the harness (0/1)]
    Outcome: v_ok [summary]. *)
-Definition KF_ACCEPT_CANCEL_LEAK : N := 165.   (* connection accepted while the context is cancelled is dropped unclosed *)
-Definition KF_LATE_TRACK : N := 166.           (* connection accepted before, tracked after Shutdown survives it *)
-Definition KF_SHUTDOWN_UNSERVED : N := 167.    (* Shutdown before serve published the listener panics *)
-Definition KF_SHUTDOWN_LOAD_RACE : N := 168.   (* reply lost through the CAS-failed / Load-saw-idle window *)
-
+(* the regions of the former known findings 165-168 (accept-then-cancel leak, connection tracked after
+   Shutdown, Shutdown before serve, reply lost through the failed-CAS window) are repaired in /repo:
+   what used to be reported under those codes is now an ordinary violation *)
 Definition is_obs (f : obs -> bool) (e : event) : bool := match e with EObs o => f o | _ => false end.
 Definition cnt (f : obs -> bool) (l : list event) : nat := List.length (filter (is_obs f) l).
 Definition any (f : obs -> bool) (l : list event) : bool := existsb (is_obs f) l.
@@ -372,7 +381,7 @@ Definition verdict_lifecycle_C17 (a : list val) (o : val) : N :=
           let ids := seq 0 nconn in
           (* no crash *)
           if negb (escaped =? 0) then VIOLATES
-          else if any ev_sd_panic l then KF_SHUTDOWN_UNSERVED
+          else if any ev_sd_panic l then VIOLATES
           else
           (* accounting *)
           if negb (accept_counts_ok k nconn [] l) then VIOLATES
@@ -382,10 +391,12 @@ Definition verdict_lifecycle_C17 (a : list val) (o : val) : N :=
                            && (summary_conn_field sm c 4 =? 1) && (summary_conn_field sm c 2 =? 0))) ids) then VIOLATES
           (* close callback exactly once per accepted connection iff set *)
           else
+            (* every connection that was let through is closed by the server in the end: none is left open *)
             let leaked := filter (fun c => passed k l c && negb (any (ev_close c) l)) ids in
             let served := filter (fun c => passed k l c && any (ev_close c) l) ids in
             if negb (forallb (fun c => Nat.eqb (cnt (ev_closecb c) l) (if on_close k then 1 else 0)
                                        && (summary_conn_field sm c 2 =? (if on_close k then 1 else 0))) served) then VIOLATES
+            else if match leaked with [] => false | _ => true end then VIOLATES
             else
             (* serve's return after cancel / shutdown *)
             if (any ev_cancel l || any ev_sd_nil l) && negb (any ev_serve_closed l && (inbound =? 1)) then VIOLATES
@@ -395,13 +406,12 @@ Definition verdict_lifecycle_C17 (a : list val) (o : val) : N :=
                 (* graceful shutdown *)
                 if any ev_any_accept post || (refused =? 0) then VIOLATES
                 else if negb (forallb (fun c => owed_ok c l false false) ids) then VIOLATES
-                else if negb (forallb (fun c => negb (passed k pre c) || any (ev_close c) pre) ids)
-                     then (if forallb (fun c => negb (passed k pre c) || any (ev_close c) pre || negb (any (ev_read c) pre)) ids
-                           then KF_LATE_TRACK else VIOLATES)
-                else if negb (forallb (fun c => negb (any (ev_accept c) pre) || passed k pre c || any (ev_cb_rej c) pre) ids)
-                     then KF_LATE_TRACK
-                else match leaked with [] => HOLDS | _ => KF_ACCEPT_CANCEL_LEAK end
-            | None => match leaked with [] => HOLDS | _ => KF_ACCEPT_CANCEL_LEAK end
+                (* a connection that Accept had returned but that was not closed when Shutdown returned (it was
+                   not tracked yet) is not served afterwards; it is closed (checked above) *)
+                else if negb (forallb (fun c => negb (any (ev_accept c) pre) || any (ev_close c) pre || negb (any (ev_read c) l)) ids)
+                     then VIOLATES
+                else HOLDS
+            | None => HOLDS
             end
       end
   | _, _ => VIOLATES
@@ -413,6 +423,22 @@ Definition run_lifecycle4 (a : list val) : val :=
   | _ => v_bad
   end.
 
+(* Stream lifecycle_flood (harness/cmd/observe/lifecycleflood.go): one Shutdown call under a flood of
+   pipelined requests; args [try; Shutdown result; handlers started - replies written; writes failed
+   on the connection the server had closed].  The absolute counts are scheduling noise and are not
+   compared; by C17_shutdown_replies_complete no run of the LTS loses a reply, so a run in which
+   Shutdown returned nil and a started handler's reply was lost violates C17 (before fix fb6684d this
+   was known finding 168). *)
+Definition run_flood (_ : list val) : val := v_ok [].
+Definition verdict_flood_C17 (a : list val) (o : val) : N :=
+  match a with
+  | [VI _; VI code; VI lost; VI failed] =>
+      if code =? 0 then (if (lost =? 0) && (failed =? 0) then HOLDS else VIOLATES) else NOT_JUDGED
+  | _ => VIOLATES
+  end.
+
 Definition table_lifecycle : list entry :=
   [ {| e_name := "lifecycle"; e_run := run_lifecycle4;
-       e_verdict := fun p a o => if (p =? 17)%N then verdict_lifecycle_C17 a o else NOT_JUDGED |} ].
+       e_verdict := fun p a o => if (p =? 17)%N then verdict_lifecycle_C17 a o else NOT_JUDGED |};
+    {| e_name := "lifecycle_flood"; e_run := run_flood;
+       e_verdict := fun p a o => if (p =? 17)%N then verdict_flood_C17 a o else NOT_JUDGED |} ].
